@@ -39,6 +39,16 @@ func runC01(c *Ctx) {
 		c01KeyByFullName(c)
 		c01WarningsAllFiles(c)
 		ruleClosureFollowsAll(c, "CLOSURE-FOLLOWS-ALL")
+		var dp []*packages.Package
+		for _, rel := range []string{"private/bufpkg/bufmodule", "private/bufpkg/bufimage", "private/pkg/storage"} {
+			if q := c.P.Pkg(rel); q != nil {
+				dp = append(dp, q)
+			}
+		}
+		ruleDelegateErr(c, "DELEGATE-ERR", dp)
+		if q := c.P.Pkg("private/bufpkg/bufmodule"); q != nil {
+			c01RetargetIndependent(c, q)
+		}
 	}
 	p := c.P
 	c.Rule("R-POSTORDER", "closure walks mark before recursing and emit a file after all of its imports", 3)
